@@ -36,16 +36,14 @@ REAL_OF = {"float64": "float64", "float32": "float32", "complex128": "float64", 
 THEOREMS = [
     # finite tables, regenerated from /repo on every run
     "Ffcx.LNodes.Fmt.prec_table_agrees",
+    "Ffcx.LNodes.Fmt.multiindex_prec_agrees",
     "Ffcx.LNodes.Fmt.math_names_injective",
     "Ffcx.LNodes.Fmt.local_faithful",
-    "Ffcx.LNodes.Fmt.local_faithful_multiindex_counterexample",
     "Ffcx.LNodes.Fmt.local_faithful_py",
-    "Ffcx.LNodes.Fmt.local_faithful_py_chain_counterexample",
-    # no token fusion
+    # no token fusion (full)
     "Ffcx.LNodes.Fmt.lex_render",
     "Ffcx.LNodes.Fmt.separated_pieces",
-    "Ffcx.LNodes.Fmt.no_token_fusion_counterexample",
-    "Ffcx.LNodes.Fmt.no_token_fusion_partial",
+    "Ffcx.LNodes.Fmt.no_token_fusion",
     # C round trip (expressions: full)
     "Ffcx.LNodes.Fmt.parse_mono_all",
     "Ffcx.LNodes.Fmt.rt_all",
@@ -53,17 +51,15 @@ THEOREMS = [
     "Ffcx.LNodes.Fmt.eraseC_norm",
     "Ffcx.LNodes.Fmt.roundtrip_C",
     "Ffcx.LNodes.Fmt.roundtrip_C_WT",
-    "Ffcx.LNodes.Fmt.roundtrip_C_counterexample",
     "Ffcx.LNodes.Fmt.literal_texts_are_tokens",
     "Ffcx.LNodes.Fmt.norm_eval",
-    # statements (partial), numba (partial + counterexamples)
+    # statements (partial), numba (partial)
     "Ffcx.LNodes.Fmt.roundtrip_stmt_partial",
     "Ffcx.LNodes.Fmt.roundtrip_Py_partial",
-    "Ffcx.LNodes.Fmt.roundtrip_Py_chain_counterexample",
-    "Ffcx.LNodes.Fmt.roundtrip_Py_bessel_counterexample",
-    # literals
-    "Ffcx.LNodes.Fmt.literal_1ulp_counterexample",
-    "Ffcx.LNodes.Fmt.literal_16digits_partial",
+    "Ffcx.LNodes.Fmt.roundtrip_Py_comparisons",
+    # literals (full at the value level)
+    "Ffcx.LNodes.Fmt.literal_readback_exact",
+    "Ffcx.LNodes.Fmt.literal_1ulp",
     "Ffcx.LNodes.Fmt.literal_exact_17",
 ]
 HELPER_FILES = ["FfcxProofs/Lemmas/" + f for f in (
@@ -895,16 +891,16 @@ def check_expr(cx, label, wt, e, scalars, do_py=True):
         if st == "raise":
             chk.disagree("C formatter raises on an exported tree", {"tree": sx, "scalar": sc, "impl": real})
             continue
-        if model != real:
+        in_sync = model == real
+        if not in_sync:  # the search below runs on the REAL text regardless
             chk.disagree("C formatter text: real vs Lean model", {"tree": sx, "scalar": sc, "impl": real, "model": model})
-            continue
         lex_ok, rt_ok = r[2] == "true", r[3] == "true"
         model_wt = {"wellformed_wfC": r[4] == "true", "kind": r[5]}
         want = lnodes_tuple(e, "c", sc)
         got = c_parse_expr(real)
         lits = []
         indep_ok = same_tree(got, want, lits)
-        if indep_ok != rt_ok:
+        if in_sync and indep_ok != rt_ok:
             chk.disagree("Lean C lexer+parser vs pycparser (round-trip verdict)",
                          {"tree": sx, "scalar": sc, "text": real, "lean_roundtrip": rt_ok, "lean_lex_ok": lex_ok,
                           "pycparser": str(got)[:300], "intended": str(want)[:300]})
@@ -938,15 +934,15 @@ def check_expr(cx, label, wt, e, scalars, do_py=True):
         if not model_raises:
             chk.disagree("numba formatter raises, model does not", {"tree": sx, "impl": real})
         return
-    if model_raises or r[1] != real:
+    in_sync = not (model_raises or r[1] != real)
+    if not in_sync:  # the search below runs on the REAL text regardless
         chk.disagree("numba formatter text: real vs Lean model", {"tree": sx, "impl": real, "model": r[1], "model_raises": model_raises})
-        return
     rt_ok = r[3] == "true"
     want = lnodes_tuple(e, "py")
     got = py_parse_expr(real)
     lits = []
     indep_ok = same_tree(got, want, lits)
-    if indep_ok != rt_ok:
+    if in_sync and indep_ok != rt_ok:
         chk.disagree("Lean Python lexer+parser vs ast.parse (round-trip verdict)",
                      {"tree": sx, "text": real, "lean_roundtrip": rt_ok, "ast": str(got)[:300], "intended": str(want)[:300]})
     if not indep_ok:
@@ -1045,25 +1041,25 @@ def check_stmt(cx, label, s, scalars, do_py=True, localise=True):
                     chk.disagree(f"{lang} formatter raising: real vs model", {"stmt": sx[:400], "scalar": sc, "impl": real[:200], "model": str(r)[:200]})
                     allok = False
                 continue
-            if r[1] != real:
+            in_sync = r[1] == real
+            if not in_sync:  # report the correspondence break (localised); the search below runs on the REAL text regardless
                 allok = False
+                sub_bad = []
                 if localise and isinstance(s, (L.StatementList, L.Section, L.ForRange)):
                     subs = list(getattr(s, "statements", [])) + list(getattr(s, "declarations", []))
                     if isinstance(s, L.ForRange):
                         subs = list(s.body.statements)
                     sub_bad = [b for b in subs if not check_stmt(cx, None, b, [sc], do_py=(lang == "py"), localise=True)]
-                    if sub_bad:
-                        continue
-                k = next((n for n, (a, b) in enumerate(zip(real, r[1])) if a != b), min(len(real), len(r[1])))
-                chk.disagree(f"{lang} formatter statement text: real vs Lean model",
-                             {"stmt": sx[:600], "scalar": sc, "at": k, "impl": real[max(0, k - 60):k + 60], "model": r[1][max(0, k - 60):k + 60]})
-                continue
+                if not sub_bad:
+                    k = next((n for n, (a, b) in enumerate(zip(real, r[1])) if a != b), min(len(real), len(r[1])))
+                    chk.disagree(f"{lang} formatter statement text: real vs Lean model",
+                                 {"stmt": sx[:600], "scalar": sc, "at": k, "impl": real[max(0, k - 60):k + 60], "model": r[1][max(0, k - 60):k + 60]})
             tok_ok, parse_ok = r[2] == "true", r[3] == "true"
             want = lstmt_tuples(s, lang, sc)
             got = c_parse_stmts(real) if lang == "c" else py_parse_stmts(real)
             lits = []
             indep_ok = same_tree(tuple(got), tuple(want), lits)
-            if indep_ok != (tok_ok and parse_ok):
+            if in_sync and indep_ok != (tok_ok and parse_ok):
                 chk.disagree(f"Lean {lang} statement lexer/parser vs independent parser (verdict)",
                              {"stmt": sx[:400], "scalar": sc, "text": real[:300], "lean_tokens_ok": tok_ok, "lean_parse_ok": parse_ok,
                               "independent": str(got)[:300], "intended": str(want)[:300]})
@@ -1249,19 +1245,24 @@ def check_numbers(cx, n):
 
 
 def confirm_with_compiler(cx):
-    """Replay the token-fusion witness on the real formatter and a real C compiler."""
+    """Replay the token-fusion witness `Neg(LiteralFloat(-2.0))` on the real formatter and a real C compiler:
+    the text must compile and evaluate to 2.0 (`--2.0` does not compile: "lvalue required as decrement operand")."""
     cc = shutil.which("gcc") or shutil.which("cc")
     e = L.Neg(L.LiteralFloat(-2.0))
     text = cx.cf["float64"](e)
     res = {"text": text, "compiler": cc}
-    if cc and text == "--2.0":
+    if cc:
         with tempfile.TemporaryDirectory(prefix="c16_") as td:
             src = os.path.join(td, "w.c")
             with open(src, "w") as f:
-                f.write(f"double f(void) {{ return {text}; }}\n")
-            p = subprocess.run([cc, "-std=c17", "-c", src, "-o", os.path.join(td, "w.o")], capture_output=True, text=True)
+                f.write(f"#include <stdio.h>\nint main(void) {{ double v = {text}; printf(\"%.17g\\n\", v); return 0; }}\n")
+            exe = os.path.join(td, "w")
+            p = subprocess.run([cc, "-std=c17", src, "-o", exe], capture_output=True, text=True)
             res["rc"] = p.returncode
             res["stderr"] = p.stderr.strip().splitlines()[:3]
+            if p.returncode == 0:
+                r = subprocess.run([exe], capture_output=True, text=True)
+                res["value"] = r.stdout.strip()
     cx.chk.notes["compiler_confirmation_neg_of_negative_literal"] = res
     return res
 
@@ -1288,11 +1289,11 @@ def run(chk):
         "text->token step of statements (lexC (fmtStmtC s) = tokStmtC s) is checked by execution per statement, not proved",
     ]
     chk.assumptions += [
-        "literal accuracy is stated at the value level: litValue p x (correctly rounded p-digit decimal) and round64 on "
-        "exact rationals; the digit-string rendering/reading (fmtFloat16/readNum) is tied by execution on the samples of this run",
+        "literal accuracy is stated at the value level: litValueR x (the decimal repr(x) prints, found by the digit search) and "
+        "round64 on exact rationals; the digit-string rendering/reading (reprFloat/readNum) is tied by execution on the samples of this run",
         "round64 ignores overflow (exponent range unbounded above); NaN, infinities and -0.0 are outside the exact-rational AST",
-        "WT = structural well-formedness (identifiers, non-empty n-ary nodes, MultiIndex only as a subscript) + the typing "
-        "discipline of ufl_to_lnodes; roundtrip_C needs only well-formedness and no Neg directly over a negative literal",
+        "WT = structural well-formedness (identifiers, non-empty n-ary nodes and lists) + the typing discipline of "
+        "ufl_to_lnodes; roundtrip_C needs only well-formedness",
     ]
     chk.notes["precedence_regenerated"] = extract_prec.regenerate()
     chk.lean("FfcxProofs.C16", THEOREMS, extra_files=[lean.LEAN / f for f in HELPER_FILES])
@@ -1360,8 +1361,11 @@ def run(chk):
         chk.notes["skipped_negative_zero"] = cx.negzero_skipped
         chk.notes["skipped_unrepresentable_initialiser"] = cx.unrepresentable
         res = confirm_with_compiler(cx)
-        if res.get("text") == "--2.0" and res.get("rc", 1) == 0:
-            chk.disagree("gcc accepted `--2.0`: the token-fusion reading of the C standard is wrong", res)
+        if res.get("compiler"):
+            if res.get("text") == "--2.0" and res.get("rc", 1) == 0:
+                chk.disagree("gcc accepted `--2.0`: the token-fusion reading of the C standard is wrong", res)
+            elif res.get("text") != "--2.0" and (res.get("rc") != 0 or float(res.get("value", "nan")) != 2.0):
+                cx.violation("fmt:c:neg-of-negative-literal", f"C text `{res.get('text')}` of Neg(LiteralFloat(-2.0)) does not compile to 2.0", res)
     chk.notes["search_seconds"] = round(time.time() - t_start, 1)
     chk.exhaustive = True
     if not quick:
